@@ -14,43 +14,30 @@ Open Scope Z_scope.
 
 Inductive val := VI (z : Z) | VB (b : bool).
 
-Definition frame := list (ident * val).
-Definition env := list frame.          (* innermost scope first *)
-
-Fixpoint flookup (x : ident) (f : frame) : option val :=
-  match f with
-  | [] => None
-  | (y, v) :: r => if x =? y then Some v else flookup x r
-  end.
+(* Environment: one association list, newest binding first.  Lexical block scoping is a stack
+   discipline on it: entering a block remembers the current length, leaving it drops the bindings
+   made since ([restore]); updates of outer variables made inside the block stay. *)
+Definition env := list (ident * val).
 
 Fixpoint lookup (x : ident) (E : env) : option val :=
   match E with
   | [] => None
-  | f :: r => match flookup x f with Some v => Some v | None => lookup x r end
+  | (y, v) :: r => if x =? y then Some v else lookup x r
   end.
 
-Definition ebind (x : ident) (v : val) (E : env) : env :=
-  match E with [] => [[(x, v)]] | f :: r => ((x, v) :: f) :: r end.
+Definition ebind (x : ident) (v : val) (E : env) : env := (x, v) :: E.
 
-Fixpoint fupdate (x : ident) (v : val) (f : frame) : frame :=
-  match f with
-  | [] => []
-  | (y, w) :: r => if x =? y then (y, v) :: r else (y, w) :: fupdate x v r
-  end.
-
+(* assign to the nearest binding of x *)
 Fixpoint eupdate (x : ident) (v : val) (E : env) : env :=
   match E with
   | [] => []
-  | f :: r => match flookup x f with
-              | Some _ => fupdate x v f :: r
-              | None => f :: eupdate x v r
-              end
+  | (y, w) :: r => if x =? y then (y, v) :: r else (y, w) :: eupdate x v r
   end.
 
 Definition bound (x : ident) (E : env) : bool :=
   match lookup x E with Some _ => true | None => false end.
 
-Definition pop (E : env) : env := match E with [] => [] | _ :: r => r end.
+Definition restore (n : nat) (E : env) : env := skipn (length E - n) E.
 
 (* result of evaluating an expression *)
 Inductive eres := EV (v : val) | EZeroDiv | EUnspec | EStuck.
@@ -68,8 +55,8 @@ Definition binop_val (o : binop) (a b : val) : eres :=
       | OpMul => chk (x * y)
       | OpFloorDiv => if y =? 0 then EZeroDiv
                     else if (x =? MIN64) && (y =? -1) then EUnspec
-                    else EV (VI (spec_floor_div x y))
-      | OpMod => if y =? 0 then EZeroDiv else EV (VI (spec_mod x y))
+                    else chk (spec_floor_div x y)
+      | OpMod => if y =? 0 then EZeroDiv else chk (spec_mod x y)
       | OpEq => EV (VB (x =? y))
       | OpNe => EV (VB (negb (x =? y)))
       | OpLt => EV (VB (x <? y))
@@ -158,8 +145,8 @@ Definition stop_of (r : eres) : stop :=
 
 Definition xres := (list line * env * sig)%type.
 
-Definition in_frame (r : xres) : xres :=
-  let '(o, E, g) := r in (o, pop E, g).
+Definition in_scope (n : nat) (r : xres) : xres :=
+  let '(o, E, g) := r in (o, restore n E, g).
 
 Definition xseq (r : xres) (k : env -> xres) : xres :=
   let '(o, E, g) := r in
@@ -199,14 +186,14 @@ Fixpoint exec_stmt (fuel : nat) (E : env) (s : stmt) {struct fuel} : xres :=
         end
     | SIf c th el =>
         match eval E c with
-        | EV (VB true) => in_frame (exec_block f ([] :: E) th)
+        | EV (VB true) => in_scope (length E) (exec_block f E th)
         | EV (VB false) => exec_els f E el
         | r => ([], E, Halt (stop_of r))
         end
     | SWhile c b =>
         match eval E c with
         | EV (VB true) =>
-            let '(o, E1, g) := in_frame (exec_block f ([] :: E) b) in
+            let '(o, E1, g) := in_scope (length E) (exec_block f E b) in
             match g with
             | Go | Cont => let '(o2, E2, g2) := exec_stmt f E1 (SWhile c b) in (o ++ o2, E2, g2)
             | Brk => (o, E1, Go)
@@ -248,10 +235,10 @@ with exec_els (fuel : nat) (E : env) (el : els) {struct fuel} : xres :=
   | S f =>
     match el with
     | ENone => ([], E, Go)
-    | EElse b => in_frame (exec_block f ([] :: E) b)
+    | EElse b => in_scope (length E) (exec_block f E b)
     | EElif c b rest =>
         match eval E c with
-        | EV (VB true) => in_frame (exec_block f ([] :: E) b)
+        | EV (VB true) => in_scope (length E) (exec_block f E b)
         | EV (VB false) => exec_els f E rest
         | r => ([], E, Halt (stop_of r))
         end
@@ -262,7 +249,7 @@ with exec_range (fuel : nat) (E : env) (x : ident) (cur stp step : Z) (b : block
   | O => ([], E, Halt OutOfFuel)
   | S f =>
     if range_done cur stp step then ([], E, Go) else
-    let '(o, E1, g) := in_frame (exec_block f ([(x, VI cur)] :: E) b) in
+    let '(o, E1, g) := in_scope (length E) (exec_block f ((x, VI cur) :: E) b) in
     match g with
     | Go | Cont =>
         if in_i64b (cur + step)
@@ -276,7 +263,7 @@ with exec_range (fuel : nat) (E : env) (x : ident) (cur stp step : Z) (b : block
 Definition final (g : sig) : stop :=
   match g with Go => Done | Brk | Cont => Stuck | Halt k => k end.
 
-Definition init_env (c : fcase) : env := [combine (params c) (map VI (args c))].
+Definition init_env (c : fcase) : env := combine (params c) (map VI (args c)).
 
 (* the observable behaviour the documentation assigns to calling the function *)
 Definition run (fuel : nat) (c : fcase) : list line * stop :=
